@@ -18,9 +18,9 @@ from checks.common import run_harness
 
 VALUES = {
     "hook": {"empty": "hook = []", "program_only": 'hook = ["true"]', "with_args": 'hook = ["/bin/sh", "-c", "exit 0", "%url", "%mimetype"]', "wrong_type": 'hook = "xdg-open"'},
-    "cache": {"negative": "cache_size = -3", "zero": "cache_size = 0", "positive": "cache_size = 7", "wrong_type": 'cache_size = "big"'},
-    "preload": {"negative": "preload_amount = -2", "zero": "preload_amount = 0", "positive": "preload_amount = 3", "wrong_type": 'preload_amount = "many"'},
-    "timeout": {"negative": "timeout_seconds = -1", "zero": "timeout_seconds = 0", "positive": "timeout_seconds = 2", "fractional": "timeout_seconds = 1.5", "wrong_type": 'timeout_seconds = "soon"'},
+    "cache": {"negative": "cache_size = -3", "zero": "cache_size = 0", "one": "cache_size = 1", "positive": "cache_size = 7", "huge": "cache_size = 4611686018427387904", "wrong_type": 'cache_size = "big"'},
+    "preload": {"negative": "preload_amount = -2", "zero": "preload_amount = 0", "positive": "preload_amount = 3", "huge": "preload_amount = 9223372036854775807", "wrong_type": 'preload_amount = "many"'},
+    "timeout": {"negative": "timeout_seconds = -1", "zero": "timeout_seconds = 0", "positive": "timeout_seconds = 2", "huge": "timeout_seconds = 9223372037", "fractional": "timeout_seconds = 1.5", "wrong_type": 'timeout_seconds = "soon"'},
     "colour": {"valid": '"#12aB9f"', "empty": '""', "short": '"#123"', "no_hash": '"x12ab9f"', "non_hex": '"#12ab9g"', "signed": '"#+1-2ab"', "wrong_type": "5"},
 }
 
@@ -87,8 +87,8 @@ def run(ctx):
     r = ctx.tlc("MC_Config", "MC_Config.cfg").require_clean()
     res.add_tlc(r)
     vectors = ctx.tlc("MC_Config", "Gen_Config.cfg").json_lines("GEN")
-    if len(vectors) != 36000:
-        raise vlib.Inconclusive("expected 36000 class vectors, generator gave %d" % len(vectors))
+    if len(vectors) != 70560:
+        raise vlib.Inconclusive("expected 70560 class vectors, generator gave %d" % len(vectors))
     rnd = random.Random(ctx.seed)
     # the full product of the four fields consumers depend on (other classes benign), then a sample of the rest
     core = [v for v in vectors if v["colour"] in ("absent", "valid") and v["shape"] == "ok" and v["colour"] == "valid"]
@@ -105,7 +105,7 @@ def run(ctx):
                 if (k, c) not in seen and all((kk, cc) in seen or kk == k for kk, cc in v.items() if False):
                     pass
         chosen += others[:60]
-        for field, classes in (("hook", ["empty"]), ("cache", ["zero", "negative"]), ("preload", ["negative", "zero"]), ("timeout", ["negative", "zero", "fractional"]),
+        for field, classes in (("hook", ["empty"]), ("cache", ["zero", "negative", "one", "huge"]), ("preload", ["negative", "zero", "huge"]), ("timeout", ["negative", "zero", "fractional", "huge"]),
                                ("colour", ["empty", "short", "no_hash", "non_hex", "signed", "wrong_type"])):
             for c in classes:
                 base = {"hook": "with_args", "cache": "positive", "preload": "positive", "timeout": "positive", "colour": "valid", "shape": "ok"}
